@@ -1165,6 +1165,17 @@ func init() {
 				m.violate(violation{"C04", "make-names", what, map[string]string{"words": joinU64(ws)}})
 			}
 		}
+		// a state machine whose action names differ in case only, run again and again from one seed: the same actions in the same
+		// order every time (the map of actions is iterated in a random order; only the sorting of its keys makes a drawn index
+		// mean an action)
+		for i := 0; i < 3*scale; i++ {
+			seed := r.u64()
+			m.tag("case-tied-action-names")
+			m.eval(fmt.Sprint("case-tied", seed), true)
+			if what := c04CaseTiedActions(seed); what != "" {
+				m.violate(violation{"C04", "case-tied", what, map[string]string{"seed": fmt.Sprint(seed)}})
+			}
+		}
 		// reflection-made generators (Make) of maps, slices and structs with such fields: the values drawn from a recording are
 		// the values drawn from the same recording without the bits of rejected attempts (duplicate keys)
 		for i := 0; i < 60*scale; i++ {
@@ -1512,6 +1523,27 @@ func c04MakeScope2b(ws []uint64) (string, string) {
 		Y uint8
 	}
 	return c04Draw(rapid.Make[ID2](), ws), c04Draw(rapid.Make[Rec2](), ws)
+}
+
+func c04CaseTiedActions(seed uint64) string {
+	run := func() string {
+		var trace []string
+		acts := map[string]func(*rapid.T){}
+		for _, name := range []string{"get", "GET", "Get", "put", "PUT", "Put", "x", "X"} {
+			name := name
+			acts[name] = func(t *rapid.T) { trace = append(trace, name+fmt.Sprint(rapid.IntRange(0, 9).Draw(t, "v"))) }
+		}
+		t := rapid.VerifNewT(newRecTB("tied"), rapid.VerifRandStream(seed, false), false)
+		runTB(func() { rapid.VerifCheckOnce(t, func(t *rapid.T) { t.Repeat(acts) }) })
+		return strings.Join(trace, " ")
+	}
+	first := run()
+	for k := 0; k < 16; k++ {
+		if again := run(); again != first {
+			return fmt.Sprintf("seed %d, a state machine with the actions get/GET/Get/put/PUT/Put/x/X: one run executes [%s], another [%s]", seed, first, again)
+		}
+	}
+	return ""
 }
 
 type c04MakeRec struct {
@@ -2361,6 +2393,11 @@ func init() {
 func init() {
 	replayers["efc"] = func(v violation, tmp string) (bool, string) {
 		what := c05ElementFilter(parseWordsGo(v.Params["words"]))
+		return what != "", what
+	}
+	replayers["case-tied"] = func(v violation, tmp string) (bool, string) {
+		seed, _ := strconv.ParseUint(v.Params["seed"], 10, 64)
+		what := c04CaseTiedActions(seed)
 		return what != "", what
 	}
 	replayers["make-replay"] = func(v violation, tmp string) (bool, string) {
